@@ -38,6 +38,8 @@ def ops_for(nodes):
     ops.append(("remove_nodes_from", nodes[:2]))
     ops.append(("add_cpds_foreign",))
     ops.append(("add_cpds_notacpd",))
+    ops.append(("add_cpds_valid_and_foreign", nodes[0]))     # one call, first argument acceptable, second rejected
+    ops.append(("remove_cpds_valid_and_missing", nodes[0]))
     ops.append(("do", nodes[:2]))
     ops.append(("copy_edit",))
     ops.append(("get_random_cpds",))
@@ -87,9 +89,9 @@ def scenarios(tier, seed):
                                     ops=[list(x) for x in triples[i]], states="default", hashseed=0, latents=[]))
     for i in range(6):
         out.append(dict(family="dbn", mode="dbn", variant=i, hashseed=i % 2))
-    for i in range(4):
+    for i in range(6):
         out.append(dict(family="jt", mode="jt", variant=i, hashseed=i % 2))
-    for i in range(3):
+    for i in range(4):
         out.append(dict(family="mn", mode="mn", variant=i, hashseed=i % 2))
     for i in range(4):
         out.append(dict(family="dag", mode="dag", variant=i, hashseed=i % 2))
@@ -205,6 +207,23 @@ def run_bn(desc, M):
                 k = card.get(v, 2)
                 ncol = int(np.prod([card[p] for p in pa])) if pa else 1
                 model.add_cpds(TabularCPD(v, k, [[1.0 / k] * ncol for _ in range(k)], evidence=pa or None, evidence_card=[card[p] for p in pa] or None))
+            elif kind == "add_cpds_valid_and_foreign":
+                v = op[1]
+                if v not in model.nodes():
+                    continue
+                pa = list(model.predecessors(v))
+                card.update({p: 2 for p in pa if p not in card})
+                k = card.get(v, 2)
+                ncol = int(np.prod([card[p] for p in pa])) if pa else 1
+                good = TabularCPD(v, k, [[1.0 / k] * ncol for _ in range(k)], evidence=pa or None, evidence_card=[card[p] for p in pa] or None)
+                model.add_cpds(good, TabularCPD("ghost", 2, [[0.5], [0.5]]))
+                M.fail("a call that contains a CPD on a foreign variable is rejected", tag)
+            elif kind == "remove_cpds_valid_and_missing":
+                v = op[1]
+                if v not in model.nodes() or model.get_cpds(v) is None:
+                    continue
+                model.remove_cpds(v, "no_such_node")
+                M.fail("a call that names a CPD the model does not have is rejected", tag)
             elif kind == "add_cpds_foreign":
                 model.add_cpds(TabularCPD("ghost", 2, [[0.5], [0.5]]))
             elif kind == "add_cpds_notacpd":
@@ -278,7 +297,7 @@ def run_bn(desc, M):
                 return
         except ValueError as e:
             raised = e
-        except (KeyError, nx.NetworkXError) as e:
+        except (KeyError, nx.NetworkXError, AttributeError) as e:
             raised = e
         after = snapshot(model)
         if raised is not None and not kind.startswith("add_edges_from") and kind != "remove_nodes_from":
@@ -356,6 +375,12 @@ def run_jt(desc, M):
             jt.add_edge(("c", "d"), ("a", "b"))
         elif v == 2:
             jt.add_edge(("a", "b"), ("a", "b"))
+        elif v == 4:
+            jt.add_edge(("d", "e"), ("d", "e"))          # self-loop on a clique that is not in the tree yet
+        elif v == 5:
+            jt = JunctionTree()
+            before = (set(), set())
+            jt.add_edge(("a", "b"), ("a", "b"))          # ... and on an empty tree
         else:
             jt.add_edges_from([(("c", "d"), ("d", "e")), (("d", "e"), ("a", "b"))])
         ok = True
@@ -363,14 +388,23 @@ def run_jt(desc, M):
         ok = False
     M.check(not ok, "JunctionTree rejects a cycle-closing edge", detail=str(v))
     g = nx.Graph(list(jt.edges()))
-    M.check(nx.is_forest(g) if g.number_of_nodes() else True, "junction tree never contains a cycle", detail=str(list(jt.edges())))
-    if v < 3:
+    M.check((nx.is_forest(g) if g.number_of_nodes() else True) and not list(nx.selfloop_edges(jt)), "junction tree never contains a cycle", detail=str(list(jt.edges())))
+    if v != 3:
         M.check((set(jt.nodes()), {frozenset(e) for e in jt.edges()}) == before, "rejected junction-tree edge leaves the tree unchanged")
     jt2 = JunctionTree()
     jt2.add_edge(("a", "b"), ("b", "c"))
     f1 = DiscreteFactor(["a", "b"], [2, 2], [1, 2, 3, 4])
     f2 = DiscreteFactor(["b", "c"], [2, 2], [1, 2, 3, 5])
     jt2.add_factors(f1, f2)
+    jt3 = JunctionTree()
+    jt3.add_edge(("a", "b"), ("b", "c"))
+    try:
+        jt3.add_factors(DiscreteFactor(["a", "b"], [2, 2], [1, 2, 3, 4]), DiscreteFactor(["a", "q"], [2, 2], [1, 1, 1, 1]))
+        ok = True
+    except ValueError:
+        ok = False
+    M.check(not ok and len(jt3.factors) == 0, "a rejected add_factors call leaves the junction tree unchanged (also when an earlier argument was acceptable)",
+            detail=f"accepted={ok} factors={len(jt3.factors)}")
     cp = jt2.copy()
     cp.factors[0].values[0, 0] = 99
     M.check(float(jt2.factors[0].values[0, 0]) == 1.0, "editing a junction-tree copy leaves the original's factors")
@@ -400,6 +434,17 @@ def run_mn(desc, M):
         except ValueError:
             ok = False
         M.check(not ok and len(mn.get_factors()) == 1, "MarkovNetwork rejects factors on foreign variables and stays unchanged")
+    elif v == 3:
+        try:
+            mn.add_factors(DiscreteFactor(["b", "c"], [2, 2], [1, 1, 1, 1]), DiscreteFactor(["a", "z"], [2, 2], [1, 1, 1, 1]))
+            ok = True
+        except ValueError:
+            ok = False
+        M.check(not ok, "MarkovNetwork rejects a call that contains a factor on a foreign variable")
+        M.check(len(mn.get_factors()) == 1, "a rejected add_factors call leaves the MarkovNetwork unchanged (also when an earlier argument was acceptable)",
+                detail=f"{len(mn.get_factors())} factors")
+        mn = MarkovNetwork([("a", "b"), ("b", "c")])
+        mn.add_factors(f1)
     cp = mn.copy()
     cp.add_edge("c", "d")
     cp.factors[0].values[0, 0] = 42
